@@ -246,6 +246,14 @@ class Goebner:
             rhs = self._to_sympy_term(t.right)
             if lhs is None or rhs is None:
                 return None
+            if t.operator_type in (BinaryOperator.Division, BinaryOperator.Modulo) and lhs.is_number and rhs.is_number:
+                # clingo truncates towards zero (-7/2 = -3, -7\\2 = -1), sympy's floor and Mod do not
+                if rhs == 0:
+                    return None
+                quotient = abs(int(lhs)) // abs(int(rhs)) * (1 if (lhs < 0) == (rhs < 0) else -1)
+                if t.operator_type == BinaryOperator.Division:
+                    return cast(Expr, Number(quotient))
+                return cast(Expr, Number(int(lhs) - int(rhs) * quotient))
             if t.operator_type == BinaryOperator.Division:
                 return cast(Expr, floor(lhs / rhs))
             if t.operator_type == BinaryOperator.Minus:
